@@ -172,3 +172,44 @@ def on_exit_marker(pid, code):
         os.close(fd)
     except Exception:
         pass
+
+
+def announce_and_block(path, secs=60, value=None):
+    """tell the driver which process runs this task, then stay in task code"""
+    with open(path, 'w') as fh:
+        fh.write(str(os.getpid()))
+    t0 = time.time()
+    while time.time() - t0 < secs:
+        time.sleep(0.01)
+    return ('ok', value)
+
+
+def announce_and_exit(path, code):
+    with open(path, 'w') as fh:
+        fh.write(str(os.getpid()))
+    time.sleep(0.05)
+    with open(path + '.t', 'w') as fh:       # CLOCK_MONOTONIC is system-wide: a lower bound for the death
+        fh.write(repr(time.monotonic()))
+    os._exit(code)
+
+
+def pid_task(x, d=0.02):
+    time.sleep(d)
+    return (os.getpid(), x)
+
+
+def soft_catcher(path, secs=10):
+    """records every SoftTimeLimitExceeded it sees, swallows it and returns a value"""
+    from billiard.exceptions import SoftTimeLimitExceeded
+    seen = 0
+    t0 = time.time()
+    while time.time() - t0 < secs:
+        try:
+            time.sleep(0.01)
+        except SoftTimeLimitExceeded:
+            seen += 1
+            with open(path, 'a') as fh:
+                fh.write('%d\n' % os.getpid())
+            if seen >= 1 and time.time() - t0 > 1.6:
+                break
+    return ('caught', seen, os.getpid())
